@@ -93,6 +93,18 @@ check('C18', 'library-store sim',
       'DESIGN.md 3.2')
 
 
+ENGINES.append(
+    {'name': 'locate/restart sim', 'path': '/verif/checks/c14_locate.py',
+     'serves_properties': ['C14'],
+     'kind_free_text': 'real loaders on the real shipped YAML held in an in-memory file system (bundled location and/or relocated copies), simulated environment variable, one forked process per process lifetime (restart), copy faults (file lost / EACCES / EIO on open / EIO on read); the self-consistency sweep runs as the invariant after loading; a real-file-system tier in new interpreters cross-checks the stubs'})
+
+check('C14', 'locate/restart sim',
+      'Fault enumeration and seeded histories over the ways of locating a shipped library: the fixed matrix 9 libraries x {by name, by explicit path, relocated copy selected through the override with the bundled directory absent} is exhaustive, each in its own process lifetime, with identical content digests demanded; seeded scenarios interleave loads, changes of the override and restarts; copy faults make one file of the relocated tree lost or unreadable (every file in the thorough tier) - the load must then fail or, if the file is outside the include closure, succeed with identical contents, and succeed identically after the fault is cleared and the process restarted. The self-consistency clause (every group finite plain numbers over its range, patterns re-readable, remaps well-formed and chain-free, uncertainty block square/symmetric/PSD/sized, basis descriptors with data) is an exhaustive sweep over the shipped data after loading. A real-file-system tier (scratch copy, new interpreters, real pgradd_DATA_DIR) cross-checks the in-memory stubs.',
+      'Trusts the SimFS os/open shim (cross-checked against the real file system on every run); restart = fork of a process that never resolved the data directory; a change of the override after the first resolution may or may not be honoured (not stated by the property).',
+      'deterministic simulation: in-memory file system + simulated environment + process restart by fork, copy-fault enumeration, exhaustive sweep of shipped data as invariant',
+      'DESIGN.md 3.3')
+
+
 def build(claimed):
     man = {
         'version': 1,
